@@ -248,6 +248,7 @@ struct ClientRig {
         cfg.setPort(server.serverPort());
         cfg.setStreamSecurityMode(QXmppConfiguration::TLSDisabled);
         cfg.setAutoReconnectionEnabled(false);
+        cfg.setKeepAliveInterval(0);  // no ping timers: nothing in a trace depends on time
         client->connectToServer(cfg);
         if (!spinUntil([&] { return server.hasPendingConnections() && client->stream()->socket()->state() == QAbstractSocket::ConnectedState; })) {
             fprintf(stderr, "caps: loopback connection not established\n");
